@@ -120,7 +120,7 @@ def in_progress(sl):
     return sorted(i for i, h in enumerate(sl) if h is not None and h[2] == "IP")
 
 
-def explore(chk, ns, max_states, variant="matrix", with_model=True, budget_s=600):
+def explore(chk, ns, max_states, variant="matrix", with_model=True, budget_s=600, stop_keys=None):
     g = Geo(ns)
     ops = op_scripts(g)
     init = (tuple([None] * ns), (None, None, (), frozenset(), None))
@@ -272,7 +272,10 @@ def explore(chk, ns, max_states, variant="matrix", with_model=True, budget_s=600
                 seen.add(s2); frontier.append(s2)
                 if len(samples) < 6:
                     samples.append({"headers": [None if h is None else "%s#%d %s/%s/%s" % h for h in s2[0]], "ghost": str(s2[1])})
-        if fails:
+        # stop at the first level that shows a failure of the property being checked; failures that belong to another
+        # property (reported by that property's own check) do not end the exploration, so that their consequences for this
+        # one are still reached (bounded)
+        if fails and (stop_keys is None or any(f.key in stop_keys for f in fails) or len(fails) > 200):
             break
     stats["states"] = len(seen)
     return {"states": len(seen), "transitions": stats["transitions"], "exhaustive": exhaustive and not fails, "fails": fails, "samples": samples,
